@@ -15,6 +15,11 @@ Inductive fres := FConst (v : value) | FImp | FOpq.
 Definition of_res (r : res value) : fres :=
   match r with Ok v => FConst v | Err EOpaque => FOpq | Err _ => FImp end.
 
+(* _FilterTestCommon.as_const and _output_child_to_const (fix 530e0cd): a value that does not read back as itself
+   (undefined, objects; sets in the real engine) is not folded *)
+Definition guard_safe (f : fres) : fres :=
+  match f with FConst v => if safe_repr v then FConst v else FImp | o => o end.
+
 Inductive lres := LConst (vs : list value) | LImp | LOpq.
 
 (* [x.as_const(eval_ctx) for x in nodes]: the first element that is not constant decides *)
@@ -145,7 +150,7 @@ Fixpoint as_const_n (O : oracles) (c : cfg) (m : nat) (e : expr) : fres :=
           match acl args with
           | LConst vargs =>
               match as_const_n O c m a with
-              | FConst va => of_res (apply_filter (autoescape c) name va vargs)
+              | FConst va => guard_safe (of_res (apply_filter (autoescape c) name va vargs))
               | o => o
               end
           | LImp => FImp | LOpq => FOpq
@@ -157,7 +162,7 @@ Fixpoint as_const_n (O : oracles) (c : cfg) (m : nat) (e : expr) : fres :=
       match acl args with
       | LConst vargs =>
           match as_const_n O c m a with
-          | FConst va => of_res (apply_test name va vargs)
+          | FConst va => guard_safe (of_res (apply_test name va vargs))
           | o => o
           end
       | LImp => FImp | LOpq => FOpq
@@ -226,6 +231,7 @@ Definition output_child (O : oracles) (c : cfg) (e : expr) : out_code :=
   if volatile c then OutRun (gen_opt O c e) else
   match as_const O c e with
   | FConst v =>
+      if negb (safe_repr v) then OutRun (gen_opt O c e) else
       match (if autoescape c then escape v else Ok v) with
       | Ok v' => match to_str v' with Some s => OutConst s | None => OutRun (gen_opt O c e) end
       | Err _ => OutRun (gen_opt O c e)
